@@ -59,3 +59,50 @@ Proof.
   assert (Hl : length (firstn (Z.to_nat off) m) = Z.to_nat off) by (rewrite firstn_length; lia).
   rewrite nth_error_app2 by lia. rewrite Hl, Nat.sub_diag. reflexivity.
 Qed.
+
+(* ---- storage: SLOAD after SSTORE ----------------------------------------------------------- *)
+Lemma st_get_set_same s k v : st_get (st_set s k v) k = v.
+Proof.
+  induction s as [|[k' v'] r IH]; cbn [st_set st_get].
+  - rewrite Z.eqb_refl. reflexivity.
+  - destruct (k' =? k) eqn:E; cbn [st_get]; rewrite E; [reflexivity|exact IH].
+Qed.
+Lemma st_get_set_other s k v k' : k' <> k -> st_get (st_set s k v) k' = st_get s k'.
+Proof.
+  intros Hne. induction s as [|[k0 v0] r IH]; cbn [st_set st_get].
+  - replace (k =? k') with false by lia. reflexivity.
+  - destruct (k0 =? k) eqn:E; cbn [st_get].
+    + replace (k0 =? k') with false by lia. reflexivity.
+    + destruct (k0 =? k'); [reflexivity|exact IH].
+Qed.
+
+(* The model's storage is one implementation of the two-operation interface the
+   opcodes use (StateDB.GetState / SetState for one account).  ANY implementation
+   satisfying get-after-set is observationally the same: reading through it
+   after any sequence of writes gives what the model's storage gives. *)
+Section StorageInterface.
+  Variable S : Type.
+  Variable get : S -> Z -> Z.
+  Variable set : S -> Z -> Z -> S.
+  Hypothesis get_set_same : forall s k v, get (set s k v) k = v.
+  Hypothesis get_set_other : forall s k v k', k' <> k -> get (set s k v) k' = get s k'.
+
+  (* [represents s m]: the implementation state s and the model storage m agree on every key *)
+  Definition represents (s : S) (m : store) : Prop := forall k, get s k = st_get m k.
+
+  Lemma represents_set s m k v : represents s m -> represents (set s k v) (st_set m k v).
+  Proof.
+    intros H k'. destruct (Z.eq_dec k' k) as [->|Hne].
+    - rewrite get_set_same, st_get_set_same. reflexivity.
+    - rewrite get_set_other, st_get_set_other by exact Hne. apply H.
+  Qed.
+
+  (* after any sequence of writes applied to both *)
+  Lemma represents_writes ws : forall s m, represents s m ->
+    represents (fold_left (fun s kv => set s (fst kv) (snd kv)) ws s)
+               (fold_left (fun m kv => st_set m (fst kv) (snd kv)) ws m).
+  Proof.
+    induction ws as [|[k v] r IH]; intros s m H; cbn [fold_left fst snd]; [exact H|].
+    apply IH, represents_set, H.
+  Qed.
+End StorageInterface.
